@@ -143,4 +143,45 @@ example : (run demoCfg 4 [0] (init [0])
       (fun s => (quiescent s, s.log)) = some (true, [0, 0, 1, 2, 3]) := by
   decide
 
+/-- **C03 (the runs together, record-dependent scopes)** For a scope that depends on depth / requisite-ness
+(`Scoped`): however often the crawl is killed and rerun, once a run comes to its end every row is final,
+the table is closed under the links of its accepted stored records, every row has its provenance, and
+every URL whose stored record is in scope has been requested by one of the runs. -/
+theorem records_closed_after_any_kills {acc : Row → Bool} {links : Row → List Child} (hs : Scoped c acc links)
+    (h : Reach c conc starts true s) (hq : quiescent s = true) :
+    (∀ r ∈ s.table, r.status = .done ∨ r.status = .skipped) ∧
+    (∀ u ∈ starts, u ∈ urls s.table) ∧
+    (∀ x ∈ s.table, acc x = true → ∀ k ∈ links x, k.url ∈ urls s.table) ∧
+    (∀ x ∈ s.table, (x.url ∈ starts ∧ x.level = 0 ∧ x.inline = none) ∨
+        ∃ p ∈ s.table, acc p = true ∧ ∃ k ∈ links p, keyEq x (childRow p k)) ∧
+    (∀ x ∈ s.table, acc x = true → x.url ∈ s.log) := by
+  have hw := hs.noFail.wf
+  have ha := reach_invA hw h
+  have hb := reach_invB hw h
+  have hc := reach_invC hw h
+  have hfin := all_final hw h hq
+  have hkids : ∀ x ∈ s.table, acc x = true →
+      (∀ k ∈ links x, k.url ∈ urls s.table) ∧ x.url ∈ s.log := by
+    intro x hx hacc
+    obtain ⟨o, ho, hko⟩ := out_of_final_row hw h hx (hfin x hx)
+    have hacco : acc o = true := by rw [← hs.key_acc x o hko]; exact hacc
+    rcases hb.kids o ho with hk' | ⟨y, hy, h1, _, _, _, h5⟩
+    · rw [hs.visit_acc o hacco] at hk'
+      refine ⟨fun k hk => hk'.1 k (by rw [← hs.key_links x o hko]; exact hk), ?_⟩
+      rw [hko.1]; exact hk'.2 o.url (by simp)
+    · have : y = x := row_unique ha.nodup hy hx (h1.trans hko.1.symm)
+      subst this
+      rcases hfin y hy with h | h <;> rcases h5 with h' | h' <;> rw [h] at h' <;> cases h'
+  refine ⟨hfin, hb.startsIn, fun x hx hacc => (hkids x hx hacc).1, ?_, fun x hx hacc => (hkids x hx hacc).2⟩
+  intro x hx
+  rcases hc.prov x hx with hp | ⟨o, ho, k, hk, hkx⟩
+  · exact Or.inl hp
+  · right
+    obtain ⟨p, hp, hkp⟩ := hc.outKey o ho
+    cases hacco : acc o
+    · rw [hs.visit_rej o hacco] at hk; cases hk
+    · rw [hs.visit_acc o hacco] at hk
+      refine ⟨p, hp, by rw [hs.key_acc p o hkp]; exact hacco, k, ?_, hkx.trans (keyEq_childRow hkp k).symm⟩
+      rw [hs.key_links p o hkp]; exact hk
+
 end Wpull.Crawl
